@@ -219,16 +219,28 @@ def _conversion_path_rule(ctx, m2):
         if l.get("init") is not None and hirq.strip(l["init"]).get("k") == "array":
             n = len(hirq.strip(l["init"])["es"])
     pushes = []
+
+    def range_index(n_):
+        for x in hirq.walk(n_):
+            if x.get("k") == "index" and hirq.strip(x["i"]).get("k") in ("struct", "call") and re.search(r"Range", (hirq.strip(x["i"]).get("fn") or hirq.strip(x["i"]).get("res", {}).get("def", ""))):
+                return hirq.strip(x["i"])
+        return None
     for lp in hirq.find(body, "for"):
-        it = lp["iter"]
-        rng = None
-        for x in hirq.walk(it):
-            if x.get("k") == "index" and hirq.strip(x["i"]).get("k") in ("struct", "call"):
-                rng = hirq.strip(x["i"])
-        if rng is None or not any(c.get("k") == "mcall" and c["m"] == "push" for c in hirq.walk(lp["body"])):
+        rng = range_index(lp["iter"])
+        if rng is None or not any(c.get("k") == "mcall" and c["m"] in ("push", "extend", "extend_from_slice") for c in hirq.walk(lp["body"])):
             continue
-        rev = any(c.get("k") == "mcall" and c["m"] == "rev" for c in hirq.walk(it))
+        rev = any(c.get("k") == "mcall" and c["m"] == "rev" for c in hirq.walk(lp["iter"]))
         pushes.append((lp, rng, rev))
+    # the same paths built without an explicit loop: path.extend_from_slice(&versions[a..=b]) / path.extend(versions[a..b].iter().rev())
+    for c in hirq.walk(body):
+        if c.get("k") == "mcall" and c["m"] in ("extend", "extend_from_slice", "append") and c.get("args"):
+            if any(c is x for lp, _r, _v in pushes for x in hirq.walk(lp["body"])):
+                continue
+            rng = range_index(c["args"][0])
+            if rng is None:
+                continue
+            rev = any(x.get("k") == "mcall" and x["m"] == "rev" for x in hirq.walk(c["args"][0]))
+            pushes.append((c, rng, rev))
     if n is None or len(pushes) < 2:
         ctx.bad(R, "build_conversion_paths|shape", f.where, "version list or the two slice loops not recognised (n=%s, loops=%d)" % (n, len(pushes)), "cannot decide the paths")
         return
